@@ -28,3 +28,4 @@ import GenProps.C14ATN
 #print axioms Blackbird.C14_parser_rule_language
 #print axioms Blackbird.C14_left_recursive_rules
 #print axioms Blackbird.C14_candidate_is_automaton_longest
+#print axioms Blackbird.C14_parser_control_matches_atn
